@@ -77,9 +77,10 @@ _BREAKS = _re.compile("\r\n|[\r\n\x85\u2028\u2029]")
 
 
 def has_foldable_more_indented_line(text):
-    """A line that starts with a space and contains a later space followed by a non-space: the shape on
-    which libyaml's folded-scalar writer folds although the line is more-indented (known finding)."""
+    """A line that starts with a space and has a non-space character: a more-indented line, inside which
+    libyaml's folded-scalar writer may fold (at any of its spaces, including the leading ones) once the
+    column exceeds the width (known finding)."""
     for l in _BREAKS.split(text):
-        if l.startswith(" ") and _re.search(r"\S +\S", l):
+        if l.startswith(" ") and l.strip(" ") != "":
             return True
     return False
